@@ -7,9 +7,11 @@
 #   RS2COQ_SRC   directory holding mask.rs, num.rs, lemire.rs, ...   (default /repo/src)
 #   RS2COQ_OUT   output file                                        (default /verif/coq/gen/Src.v)
 # The output file is only rewritten when its content changes (so `make` does not rebuild
-# needlessly).  Exit status: 0 ok; 1 build failure; 2/3 the source uses a construct outside the
-# supported subset or a declaration the translator relies on changed (fail closed: the output is
-# left untouched).
+# needlessly).  A function that cannot be translated (construct outside the supported subset) is
+# OMITTED from the output, together with its callers; the line `rs2coq: omitted: <names|none>` is
+# echoed, and the proofs that mention an omitted definition stop compiling (fail closed per
+# theorem).  Exit status: 0 ok (possibly with omissions); 1 build failure; 2 a source file is
+# missing / unparsable or a declaration the translator relies on changed (output left untouched).
 set -u
 HERE="$(cd "$(dirname "$0")" && pwd)"
 SRC="${RS2COQ_SRC:-/repo/src}"
@@ -24,8 +26,12 @@ if ! ( cd "$HERE" && timeout 900 cargo build --offline --release -q ) > "$CARGO_
 fi
 TMP="$(mktemp "${TMPDIR:-/tmp}/Src.v.XXXXXX")"
 trap 'rm -f "$TMP"' EXIT
-timeout 120 "$CARGO_TARGET_DIR/release/rs2coq" "$SRC" > "$TMP"
+ERR="$(mktemp "${TMPDIR:-/tmp}/Src.err.XXXXXX")"
+trap 'rm -f "$TMP" "$ERR"' EXIT
+timeout 120 "$CARGO_TARGET_DIR/release/rs2coq" "$SRC" > "$TMP" 2> "$ERR"
 rc=$?
+grep -v '^rs2coq: omitted:' "$ERR" >&2
+grep '^rs2coq: omitted:' "$ERR"
 if [ $rc -ne 0 ]; then
   echo "rs2coq/run.sh: translation of $SRC FAILED (exit $rc); $OUT left untouched" >&2
   exit $rc
@@ -34,6 +40,6 @@ if [ -f "$OUT" ] && cmp -s "$TMP" "$OUT"; then
   echo "rs2coq/run.sh: $OUT is up to date"
 else
   mkdir -p "$(dirname "$OUT")"
-  cp "$TMP" "$OUT"
+  cp "$TMP" "$OUT.tmp.$$" && mv -f "$OUT.tmp.$$" "$OUT"
   echo "rs2coq/run.sh: wrote $OUT"
 fi
